@@ -25,7 +25,7 @@
 //!        instr  : TearSheetGenerator::{update_from_position, generate}
 //!   c18 random --seed S --steps N --out trace     seeded random curves (impl -> spec direction):
 //!   c18 points --in f --mode m --out trace        one NDJSON line per point = the point plus `post`,
-//!        the projected figures in integers (depth in 1e-6 units, model time = ms / 1000);
+//!        the projected figures in integers (depth in 1e-4 units, model time = ms / 1000);
 //!        spec/Trace_Drawdown.tla is the oracle
 //!
 //! One result line per scenario (and variant): {"scn","vidx","ok","step","error","event","pre",..};
@@ -787,16 +787,20 @@ mod c18 {
 
     // ---- impl -> spec: traces for spec/Trace_Drawdown.tla (integers only)
     const TRACE_UNIT_MS: i64 = 1000;
+    /// positive values (every peak is positive) and, after the first point, zero / negative ones:
+    /// a PnL curve may fall from a positive peak to below zero (depth > 1)
     const TRACE_VALUES: [i64; 9] = [1, 2, 3, 4, 5, 6, 8, 10, 12];
+    const TRACE_LOW: [i64; 4] = [0, -1, -2, -4];
 
-    fn ppm(d: Decimal) -> i64 {
-        i64::try_from((d * Decimal::from(1_000_000)).round().mantissa()).unwrap_or(-1)
+    /// depth in 1e-4 units, rounded
+    fn e4(d: Decimal) -> i64 {
+        i64::try_from((d * Decimal::from(10_000)).round().mantissa()).unwrap_or(-1)
     }
     fn dd_line(v: &Value, observed: bool) -> Value {
         match v.as_object() {
-            Some(o) => json!({"obs": observed, "has": true, "ppm": ppm(as_dec(&o["value"])),
+            Some(o) => json!({"obs": observed, "has": true, "e4": e4(as_dec(&o["value"])),
                 "start": o["start"].as_i64().unwrap() / TRACE_UNIT_MS, "end": o["end"].as_i64().unwrap() / TRACE_UNIT_MS}),
-            None => json!({"obs": observed, "has": false, "ppm": 0, "start": 0, "end": 0}),
+            None => json!({"obs": observed, "has": false, "e4": 0, "start": 0, "end": 0}),
         }
     }
     fn as_dec(v: &Value) -> Decimal {
@@ -804,8 +808,8 @@ mod c18 {
     }
     fn mean_line(m: &Option<MeanDrawdown>, count: Option<u64>) -> Value {
         match m {
-            Some(m) => json!({"has": true, "count": count.map(|c| c as i64).unwrap_or(-1), "ppm": ppm(m.mean_drawdown), "ms": m.mean_drawdown_ms}),
-            None => json!({"has": false, "count": count.map(|c| c as i64).unwrap_or(-1), "ppm": 0, "ms": 0}),
+            Some(m) => json!({"has": true, "count": count.map(|c| c as i64).unwrap_or(-1), "e4": e4(m.mean_drawdown), "ms": m.mean_drawdown_ms}),
+            None => json!({"has": false, "count": count.map(|c| c as i64).unwrap_or(-1), "e4": 0, "ms": 0}),
         }
     }
     fn post_line(s: &Seen) -> Value {
@@ -894,6 +898,7 @@ mod c18 {
                         0 | 1 if peak > 0 => peak,
                         2 if prev > 0 => prev,
                         3 if peak > 0 => *TRACE_VALUES.iter().find(|x| **x > peak).unwrap_or(&peak),
+                        4 if k > 0 => TRACE_LOW[r.random_range(0..TRACE_LOW.len())],
                         _ => TRACE_VALUES[r.random_range(0..TRACE_VALUES.len())],
                     };
                     peak = peak.max(v);
@@ -917,7 +922,7 @@ mod c18 {
         let mut res = Results::new(args.req("out"));
         let mut by_mode = serde_json::Map::new();
         let (mut emitted_seen, mut current_seen, mut ties_seen) = (0u64, 0u64, 0u64);
-        let (mut reads, mut equal_times) = (0u64, 0u64);
+        let (mut reads, mut equal_times, mut through_zero) = (0u64, 0u64, 0u64);
         for (n, scn) in scenarios.iter().enumerate() {
             let vi = vidx(scn, n);
             let var = variant_of(scn, seed, vi);
@@ -951,6 +956,7 @@ mod c18 {
                     }
                     if mode == "raw" {
                         equal_times += (k > 0 && pts[k - 1]["t"] == p["t"]) as u64;
+                        through_zero += rat_of(&exp["cur"]["value"]).is_some_and(|(n, d)| n > d) as u64;
                         emitted_seen += (exp["emitted"] != "none") as u64;
                         current_seen += (exp["cur"] != "none") as u64;
                         ties_seen += exp["fin_max"].get("anyOf").and_then(|a| a.as_array()).is_some_and(|a| a.len() > 1) as u64;
@@ -971,7 +977,7 @@ mod c18 {
         res.out.finish();
         println!("{}", json!({"scenarios": scn, "failed": failed, "points": steps, "runs_by_mode": by_mode,
             "arm_hits": {"point_completes_a_drawdown": emitted_seen, "drawdown_in_progress": current_seen, "max_tie": ties_seen,
-                         "live_read": reads, "equal_consecutive_times": equal_times}}));
+                         "live_read": reads, "equal_consecutive_times": equal_times, "decline_through_zero": through_zero}}));
     }
 }
 
@@ -1017,32 +1023,52 @@ mod c16 {
         instrument::{InstrumentIndex, name::InstrumentNameInternal},
     };
     use barter_integration::{channel::UnboundedTx, snapshot::Snapshot};
-    use vh::world;
+    use barter_instrument::{Underlying, index::IndexedInstruments, instrument::Instrument};
 
     type State = EngineState<DefaultGlobalData, DefaultInstrumentMarketData>;
     type Eng = Engine<HistoricalClock, State, MultiExchangeTxMap<UnboundedTx<ExecutionRequest>>, DefaultStrategy<State>, DefaultRiskManager<State>>;
 
-    /// spec key "iN" <-> InstrumentIndex(N) <-> name_internal, from the harness world (world.rs)
-    const INSTR: [(&str, ExchangeId, &str); 4] = [
-        ("i0", ExchangeId::BinanceSpot, "binance_spot_btc_usdt"),
-        ("i1", ExchangeId::BinanceSpot, "binance_spot_eth_usdt"),
-        ("i2", ExchangeId::Kraken, "kraken_btc_usdt"),
-        ("i3", ExchangeId::Kraken, "kraken_eth_usdt"),
+    /// The universe of the C16 drivers: two exchanges, and internal NAMES that deliberately do NOT sort
+    /// in index order (IndexedInstruments orders by exchange, then name), so that an index resolved by
+    /// map position and a name resolved by key only agree when the maps really are in index order.
+    /// spec key "iN" <-> InstrumentIndex(N) <-> name_internal
+    const INSTR: [(&str, ExchangeId, &str, &str, &str); 4] = [
+        ("i0", ExchangeId::BinanceSpot, "m_xrp_usdt", "xrp", "usdt"),
+        ("i1", ExchangeId::BinanceSpot, "z_sol_usdt", "sol", "usdt"),
+        ("i2", ExchangeId::Kraken, "a_btc_usdc", "btc", "usdc"),
+        ("i3", ExchangeId::Kraken, "k_ada_usdc", "ada", "usdc"),
     ];
-    /// spec key "aN" <-> AssetIndex(N) <-> (exchange, asset name): asserted against the
-    /// IndexedInstruments of the world at start-up
+    /// spec key "aN" <-> AssetIndex(N) <-> (exchange, asset name) - names not in index order either;
+    /// asserted against the IndexedInstruments at start-up
     const ASSET: [(&str, ExchangeId, &str); 6] = [
-        ("a0", ExchangeId::BinanceSpot, "btc"),
-        ("a1", ExchangeId::BinanceSpot, "eth"),
-        ("a2", ExchangeId::BinanceSpot, "usdt"),
-        ("a3", ExchangeId::Kraken, "btc"),
-        ("a4", ExchangeId::Kraken, "eth"),
-        ("a5", ExchangeId::Kraken, "usdt"),
+        ("a0", ExchangeId::BinanceSpot, "sol"),
+        ("a1", ExchangeId::BinanceSpot, "usdt"),
+        ("a2", ExchangeId::BinanceSpot, "xrp"),
+        ("a3", ExchangeId::Kraken, "ada"),
+        ("a4", ExchangeId::Kraken, "btc"),
+        ("a5", ExchangeId::Kraken, "usdc"),
     ];
+    const EXCHANGES: [ExchangeId; 2] = [ExchangeId::BinanceSpot, ExchangeId::Kraken];
+
+    fn instruments() -> IndexedInstruments {
+        let mut b = IndexedInstruments::builder();
+        for (_, ex, name, base, quote) in INSTR.iter().rev() {
+            b = b.add_instrument(Instrument::spot(*ex, *name, format!("{base}{quote}").to_uppercase(), Underlying::new(*base, *quote), None));
+        }
+        b.build()
+    }
+    fn engine_state() -> State {
+        EngineState::builder(&instruments(), DefaultGlobalData::default(), DefaultInstrumentMarketData::default)
+            .time_engine_start(time(0))
+            .trading_state(TradingState::Disabled)
+            .build()
+    }
 
     fn assert_world() {
-        let ii = world::instruments();
-        for (n, (_, ex, name)) in INSTR.iter().enumerate() {
+        let ii = instruments();
+        let names: Vec<&str> = INSTR.iter().map(|x| x.2).collect();
+        assert!(!names.is_sorted(), "the universe must not have its names in index order");
+        for (n, (_, ex, name, _, _)) in INSTR.iter().enumerate() {
             let k = &ii.instruments()[n];
             assert!(k.key == InstrumentIndex(n) && k.value.name_internal.as_ref() == *name && k.value.exchange.value == *ex,
                 "harness world changed: instrument {n} is {:?}", k.value.name_internal);
@@ -1109,7 +1135,7 @@ mod c16 {
     /// brought to the scale of this run
     fn complete(exp: &Value, e10: i32) -> Value {
         let mut inst = serde_json::Map::new();
-        for (k, _, _) in INSTR {
+        for (k, ..) in INSTR {
             let mut s = exp["instruments"].get(k).cloned().unwrap_or_else(empty_sheet);
             let (n, d) = rat_of(&s["pnl"]).unwrap();
             let (n, d) = scale_frac(n, d, e10);
@@ -1170,7 +1196,7 @@ mod c16 {
     /// (long -> short -> long ..., also repeatedly).
     fn plan_scenario(evs: &[Value], var: Variant) -> Vec<Option<Plan>> {
         let mut plans: Vec<Option<Plan>> = vec![None; evs.len()];
-        for (inst, _, _) in INSTR {
+        for (inst, ..) in INSTR {
             let idx: Vec<usize> = evs.iter().enumerate().filter(|(_, e)| e["a"] == "AddClosed" && e["k"] == inst).map(|(n, _)| n).collect();
             let mut carry: Option<(Side, Decimal, Decimal)> = None; // side, qty, entry price of the open leftover
             for (j, &n) in idx.iter().enumerate() {
@@ -1330,6 +1356,7 @@ mod c16 {
             }
         }
         fn generate(&mut self) -> Result<Value, String> {
+            keys_agree(&self.g)?;
             Ok(summary_json(&catch(|| self.g.generate(Daily))?))
         }
     }
@@ -1340,8 +1367,8 @@ mod c16 {
         trades: u64,
     }
     fn new_engine() -> Eng {
-        let state = world::engine_state(TradingState::Disabled);
-        let txs = MultiExchangeTxMap::from_iter(world::EXCHANGES.iter().map(|e| (*e, None)));
+        let state = engine_state();
+        let txs = MultiExchangeTxMap::from_iter(EXCHANGES.iter().map(|e| (*e, None)));
         Engine::new(HistoricalClock::new(time(0)), state, txs, DefaultStrategy::default(), DefaultRiskManager::default())
     }
     impl EngineSut {
@@ -1418,8 +1445,32 @@ mod c16 {
         }
         fn generate(&mut self) -> Result<Value, String> {
             let mut g = catch(|| self.e.trading_summary_generator(Decimal::ZERO))?;
+            keys_agree(&g)?;
             Ok(summary_json(&catch(|| g.generate(Daily))?))
         }
+    }
+
+    /// An InstrumentIndex / AssetIndex and the name it stands for must resolve to the same tear sheet
+    /// of the generator (index keys are resolved by map position, names by key).
+    fn keys_agree(g: &TradingSummaryGenerator) -> Result<(), String> {
+        use barter::statistic::summary::{AssetTearSheetManager, InstrumentTearSheetManager};
+        for (n, x) in INSTR.iter().enumerate() {
+            let by_index = catch(|| g.instrument(&InstrumentIndex(n)).clone())?;
+            let by_name = catch(|| g.instrument(&InstrumentNameInternal::new(x.2)).clone())?;
+            let at = g.instruments.get_index(n).map(|(k, _)| k.to_string());
+            if by_index != by_name || at.as_deref() != Some(x.2) {
+                return Err(format!("KEYS: InstrumentIndex({n}) resolves to the tear sheet at map position {n} (key {at:?}), the name {} to another one", x.2));
+            }
+        }
+        for n in 0..ASSET.len() {
+            let by_index = catch(|| g.asset(&AssetIndex(n)).clone())?;
+            let by_name = catch(|| g.asset(&asset_key(n)).clone())?;
+            let at = g.assets.get_index(n).map(|(k, _)| k.clone());
+            if by_index != by_name || at != Some(asset_key(n)) {
+                return Err(format!("KEYS: AssetIndex({n}) resolves to the tear sheet at map position {n} (key {at:?}), not to {:?}", asset_key(n)));
+            }
+        }
+        Ok(())
     }
 
     fn new_sut(mode: &str) -> Box<dyn Sut> {
@@ -1429,7 +1480,7 @@ mod c16 {
                 assets: ASSET.iter().map(|_| TearSheetAssetGenerator::default()).collect(),
             }),
             "summary" => {
-                let s = world::engine_state(TradingState::Disabled);
+                let s = engine_state();
                 Box::new(Summary { g: TradingSummaryGenerator::init(Decimal::ZERO, time(0), time(0), &s.instruments, &s.assets) })
             }
             "engine" => Box::new(EngineSut { e: new_engine(), trades: 0 }),
@@ -1510,7 +1561,7 @@ mod c16 {
                         break;
                     }
                     Err(p) => {
-                        failure = Some((k, format!("panic: {p}"), shown));
+                        failure = Some((k, if p.starts_with("KEYS:") { format!("summary.keys: {p}") } else { format!("panic: {p}") }, shown));
                         break;
                     }
                     Ok(actual) => match json_match(&complete(&e["exp"], var.e10), &actual, "summary") {
